@@ -19,7 +19,7 @@ CHECKS = {
 CHECKS.update({
     "C12": dict(
         technique="Lean 4 proof (induction over evaluation histories) on a model of the trackers and search loops + differential correspondence (all histories over 3 values up to length 6)",
-        text="Theorems (Props/C12.lean, 11) prove for ALL histories: the tracked best has the maximum aggregate at every prefix, the is_best flag holds iff first or strictly better than all earlier, the multi-objective list only holds individuals attaining the best aggregate, and every search returns the tracker's best -- also on a tracker that earlier searches or evaluations have already used (C12_search_returns_best_warm: best of everything the tracker has seen); the full 'at least as good as every individual evaluated' statement is proved under the hypothesis that every evaluated individual reaches the tracker (C12_best_of_evaluated_partial) and refuted for GP steps that evaluate internally (C12_gp_step_evaluation_witness, open finding). Tied to the code by exhaustive small histories and real searches.",
+        text="Theorems (Props/C12.lean, 14) prove for ALL histories: the tracked best has the maximum aggregate at every prefix, the is_best flag holds iff first or strictly better than all earlier, the multi-objective list only holds individuals attaining the best aggregate, and every search returns the tracker's best -- also on a tracker that earlier searches or evaluations have already used (C12_search_returns_best_warm: best of everything the tracker has seen); the public ranking helper best_individual names the individual a tracker would hold after the same individuals (C12_helper_best_eq_tracker); the full 'at least as good as every individual evaluated' statement is proved under the hypothesis that every evaluated individual reaches the tracker (C12_best_of_evaluated_partial) and refuted for GP steps that evaluate internally (C12_gp_step_evaluation_witness, open finding). Tied to the code by exhaustive small histories and real searches.",
         note="Trusted: Lean kernel + standard axioms; model validated on explored inputs only; fitness values are integers of an arbitrary linear order (NaN outside the model).",
         design="5/C12",
     ),
@@ -61,8 +61,8 @@ CHECKS.update({
     ),
     "C02": dict(
         technique="Lean 4 proof that every refinement's generated value satisfies its documented predicate and its own validate (per refinement, incl. dependent ones resolved against the actual siblings), lifted to whole programs through the well-typedness theorem + exhaustive correspondence over parameter boxes and ALL draws",
-        text="Theorems (Props/C02.lean, 11): createNode on Annotated[T, mh] returns a value satisfying mh against the actual sibling values, at every position; every refined field of every well-typed program satisfies its refinement against its earlier siblings; list elements and union members inherit it; validate accepts everything generate produces (IntervalRange as repaired); witnesses show where validate and the documented predicate differ. Exhaustive boxes: IntRange, IntList, VarRange, ListSizeBetween, StringSizeBetween, IntervalRange x all draws.",
-        note="Float refinements checked on the Python side only; WeightedStringHandler via C18's weighted choice; Dependent.validate is NotImplemented in the library (harness evaluates dependents itself); the stack representation violates refinements (open finding). Trusted: Lean kernel + standard axioms.",
+        text="Theorems (Props/C02.lean, 15): createNode on Annotated[T, mh] returns a value satisfying mh against the actual sibling values, at every position; every refined field of every well-typed program satisfies its refinement against its earlier siblings; list elements and union members inherit it; validate accepts everything generate produces (IntervalRange as repaired); witnesses show where validate and the documented predicate differ; the string refinement's own operators (StringSizeBetween.mutate / crossover, modelled over an arbitrary source) keep a string inside its bounds and alphabet for all bounds, strings and draws (C02_string_mutate_sat, C02_string_crossover_sat); WeightedStringHandler.generate yields one letter per row and never a letter of probability 0 at a usable row (C02_weighted_string_sat). Exhaustive boxes: IntRange, IntList, VarRange, ListSizeBetween, StringSizeBetween, IntervalRange x all draws.",
+        note="Float refinements checked on the Python side only; WeightedStringHandler modelled with rational weights (rows as numerators over a common denominator); Dependent.validate is NotImplemented in the library (harness evaluates dependents itself); the stack representation violates refinements (open finding). Trusted: Lean kernel + standard axioms.",
         design="5/C02",
     ),
     "C03": dict(
